@@ -35,6 +35,11 @@ ASSUMPTIONS = [
     'runs AFTER the expansion refuses them (convert_component_types knows no y/n; the schema check refuses the '
     'replicate the copies carry in their override section and any aggregate there that is not a YAML boolean), which '
     'is outside this property; those workflows are expanded through FlowIRConcrete.replicate() only',
+    'besides name / references / arguments the strings read back from every returned component are its variables and '
+    '8 places of the definition (command.executable / environment / interpreter, executors pre / post payload, '
+    'resourceManager kubernetes.image / lsf.queue / lsf.resourceString); workflows that fill those places are not driven '
+    'through graphFromFlowIR (its validation of these sections is outside this property); the expected text of a copy is '
+    'defined token-wise (a token = a declared spelling, optionally followed by /path) outside the open finding classes',
     'workflows are generated acyclic (the model receives the components in a topological order, the implementation '
     'receives them grouped by stage as FlowIRConcrete stores them)',
     'the structured theorems are over parsed references; the textual layer is tied to them by C03_textual_refines '
@@ -1259,7 +1264,12 @@ def run(ctx):
                 '(workflowAttributes and variables), the object built for one platform (none/default/other) and the '
                 'expansion requested for one (unset/none/default/other, rarely empty or unknown), the graph built for '
                 'the requested platform; plus a fixed corpus and two systematic families (every spelling x entry point '
-                'of one aggregator; every constructor x requested platform pair of one workflow). non-trivial = at '
+                'of one aggregator; every constructor x requested platform pair of one workflow). (3) place - 30-40% of '
+                'all generated workflows also spell declared references (either spelling, with / without a path after the '
+                'method) in variables of the consumer used as %(v)s on its command line (also override.<platform>.variables) '
+                'and in 8 other places of the definition (command.executable / environment / interpreter, executors '
+                'payloads, resourceManager options); all of them are read back from every returned component; a third '
+                'systematic family: one reference x spelling x suffix x place x entry point. non-trivial = at '
                 'least two replica copies are produced and some component has references; distinct by the whole '
                 'workflow and entry')
     n = 1100 if ctx.tier == 'quick' else 12000
